@@ -334,5 +334,11 @@ ModIoc2 == MkMod("VP", "AUTOMATIC", <<
   D("Wrap", TSeq(<<C(TRef("Frame5")), O(TRef("Frame5"))>>, TRUE, <<>>)),
   D("Frames", TSetOf(TRef("Frame5"), CNone)) >>)
 
-Modules == <<ModExplicit, ModAutomatic, ModImplicit, ModBig, ModConstraints, ModX1, ModX2, ModX3, ModIoc, ModIoc2>>
+\* an OPTIONAL open type component
+ModIoc3 == MkMod("VQ", "AUTOMATIC", <<
+  D("Pair", TSeq(<<C(TBool), O(Int0)>>, FALSE, <<>>)),
+  D("Frame6", TIoSeqOpt(<<Row(1, "INTEGER", Int0), Row(2, "IA5String", IA5), Row(3, "Pair", TRef("Pair"))>>, FALSE, "6")),
+  D("Frames", TSeqOf(TRef("Frame6"), CNone)) >>)
+
+Modules == <<ModExplicit, ModAutomatic, ModImplicit, ModBig, ModConstraints, ModX1, ModX2, ModX3, ModIoc, ModIoc2, ModIoc3>>
 =============================================================================
